@@ -116,7 +116,7 @@ func runReal(t *testing.T, tr *vrt.Tracer, sc udpScenario, batch, poison bool) {
 						r["res"] = "fail"
 					}
 				case "read":
-					buf := make([]byte, 100)
+					buf := make([]byte, 9000)
 					n, err := conn.Read(buf)
 					if err != nil {
 						r["res"] = "eof"
